@@ -57,6 +57,10 @@ func (ix *recIndex) matches(r *warcread.Record, e *e2e.Exchange) (bool, string) 
 		if r.EntityLen != e.EntityLen || r.EntitySHA1 != e.EntitySHA1 {
 			return false, fmt.Sprintf("entity of %d bytes sha1 %s stored, %d bytes sha1 %s sent", r.EntityLen, r.EntitySHA1, e.EntityLen, e.EntitySHA1)
 		}
+		// the digest the record declares (what de-duplication and replay go by) is the digest of that payload
+		if r.PayloadDigest != "" && r.PayloadDigest != b32(e.EntitySHA1) {
+			return false, fmt.Sprintf("response record declares payload digest %s, the payload sent (and stored) has %s", r.PayloadDigest, b32(e.EntitySHA1))
+		}
 		return true, ""
 	case "revisit":
 		if r.HTTPErr != "" {
